@@ -68,3 +68,21 @@ def register(w):
     # handlers that call their own getentry() again inherit its precondition (statresult of a regular file)
     cw = w.contracts[(H + "file.py::CompressedFileHandler.write", "CompressedFileHandler")]
     cw.requires = cw.requires + [STATSIZE, "self.statresult is not None", "S.is_reg(self.statresult)"]
+
+    register_virtual_entries(w)
+
+
+def register_virtual_entries(w):
+    """getentry of the handlers that do not describe a file: each is shown to satisfy the AnyHandler.getentry
+    interface the protocols are verified against (raises nothing, advertises no size it cannot keep)."""
+    H = "pygopherd/handlers/"
+    P = ["C03", "C04", "C15", "C20"]
+    w.contract(H + "scriptexec.py::ExecHandler.getentry", selfclass=["ExecHandler"], modifies=[], raises={}, returns="obj:GopherEntry",
+               ensures=["result.size is None", "result.type == '0'", "result.mimetype == 'text/plain'", "result.selector == self.selectorreal", "result.gopherpsupport == 0"], props=P,
+               note="the output of a script has no length known in advance: none is advertised (Gopher+ answers with the unknown-length marker)")
+    w.contract(H + "mbox.py::FolderHandler.getentry", selfclass=["MBoxFolderHandler", "MaildirFolderHandler"], modifies=["self.entry"], raises={}, returns="obj:GopherEntry",
+               ensures=["result is self.entry", "implies(old(self.entry) is None, result.size is None and result.type == '1' and result.mimetype == 'application/gopher-menu')"], props=P)
+    w.contract(H + "url.py::HTMLURLHandler.getentry", selfclass=["HTMLURLHandler"], modifies=["self.entry"], raises={}, returns="obj:GopherEntry",
+               ensures=["result is self.entry", "implies(old(self.entry) is None, result.size is None and result.type == 'h' and result.mimetype == 'text/html' and result.name == self.selector)"], props=P)
+    w.contract(H + "base.py::BaseHandler.getentry", selfclass=["BaseHandler"], modifies=["self.entry"], raises={}, returns="obj:GopherEntry",
+               ensures=["result is self.entry", "implies(old(self.entry) is None, result.size is None and result.selector == self.selector)"], props=P)
